@@ -15,7 +15,7 @@ Property C10 - "Every call to an exported object gets exactly one correctly addr
 
 Code model : Obj/Dispatch.lean   (handleMethodCallMessage, executeMethod, the decorated-method
                                   cache, send_reply / send_error, Deferred resolution; after
-                                  repair C10-01)
+                                  repairs C10-01 and C10-02)
 Spec       : Obj/DispatchSpec.lean (verdict of a call, binding order, naming rule)
 Tables     : Gen/Dispatch.lean   (built-in pairs, lookup-error names and formats, prefixes)
 Lemmas     : Proofs/Obj/Dispatch{Lookup,Call,History,Main}.lean
@@ -265,6 +265,7 @@ theorem table_shape :
        ("org.freedesktop.DBus.ObjectManager", "GetManagedObjects")] ∧
     Gen.Dispatch.lookupErrors.map (fun e => (e.1, e.2.2)) =
       [("org.freedesktop.DBus.Error.UnknownObject", ["msg.path"]),
+       ("org.freedesktop.DBus.Error.Failed", ["e"]),
        ("org.freedesktop.DBus.Error.UnknownMethod",
           ["msg.member", "msg.signature or ''", "msg.interface or '(null)'"]),
        ("org.freedesktop.DBus.Error.InvalidArgs",
@@ -298,7 +299,8 @@ def raisesNul : Nat → Outcome Nat :=
   fun _ => .raise { cls := "Exception".toList, errName := none, text := ['a', '\x00', 'b'] }
 
 def envWith (fix : Str → Option Str) : Env Nat :=
-  { encErr := fun _ _ => none, ofSeq := fun _ => 0, validErr := fun _ => true, textFix := fix }
+  { encErr := fun _ _ => none, managedErr := fun _ => none, ofSeq := fun _ => 0,
+    validErr := fun _ => true, textFix := fix }
 
 end Example
 
